@@ -18,9 +18,9 @@ pub fn check(tier: Tier) -> Check {
     // (B) two publishes + a ping interleaved, success / one failing reason
     for k in 0..=2u32 {
         let d = match (tier, k) {
-            (Tier::Quick, 0) => 6,
+            (Tier::Quick, 0) => 7,
             (Tier::Quick, 1) => 5,
-            (Tier::Quick, _) => 4,
+            (Tier::Quick, _) => 5,
             (Tier::Thorough, 0) => 8,
             (Tier::Thorough, 1) => 7,
             (Tier::Thorough, _) => 6,
@@ -33,7 +33,7 @@ pub fn check(tier: Tier) -> Check {
             }
         }
     }
-    parts.push(Part::new("C06/interleave", json!({"depth": tier.pick(4, 6), "r": 1, "flavour": 1}), 1, tier.pick(30, 400)));
+    parts.push(Part::new("C06/interleave", json!({"depth": tier.pick(5, 6), "r": 1, "flavour": 1}), 1, tier.pick(30, 400)));
     Check {
         also_rel: false,
         property: "C06",
